@@ -1,7 +1,7 @@
 // psetseq_steps.hh — body of Engine<DOM> (included inside the class): the step kinds and run_case.
 // No include guard on purpose: it is only ever included from psetseq.hh.
 
-  struct Step { std::string op; std::set<int> changed; Step() {} };
+  struct Step { std::string op; std::set<int> changed; bool scratch; Step() : scratch(false) {} };
   typedef std::function<void(PS&, const PS&)> PSBin;
 
   static PS* deep_copy(const PS& p) { PS* y = new PS(p.space_dimension(), EMPTY); std::vector<D> ev = elems(p); for (size_t i = 0; i < ev.size(); ++i) y->add_disjunct(ev[i]); return y; }
@@ -165,23 +165,32 @@
     hx::count("op_checks"); hx::count("simplify_checks");
     if (R.size() * UB.size() > 40) { hx::inconclusive("simplify_big"); return; }
     Un M1 = meets(UA, UB), M2 = meets(R, UB);
-    // triage: does the base-level simplification of one disjunct in one context disjunct already lose/gain part of the meet,
-    // or return false on a non-empty meet?
-    bool base_fail = false; std::string base_wit, base_sub;
-    // (both with the plain context disjuncts and with the progressively restricted ones the powerset algorithm uses)
-    for (int chain = 0; chain < 2 && !base_fail; ++chain) for (size_t i = 0; i < evA.size() && !base_fail; ++i) {
-      D enlarged(n);
-      for (size_t j = 0; j < evB.size() && !base_fail; ++j) {
-        D ctx(evB[j]); if (chain) ctx.intersection_assign(enlarged);
-        D z(evA[i]); bool br = z.simplify_using_context_assign(ctx);
-        Sh sc = M::shadow(ctx, n); Un m1(1, M::meet(UA[i], sc)), m2(1, M::meet(M::shadow(z, n), sc)); Vec w;
-        if (!br && !M::empty(n, m1[0])) base_sub = "-returns-false-on-nonempty-meet";
-        if (M::included(n, m1, m2, &w) == 0 || M::included(n, m2, m1, &w) == 0 || (!br && !M::empty(n, m1[0]))) { base_fail = true; if (base_sub.empty()) base_sub = "-meet-changed"; base_wit = "base level: " + text(evA[i]) + " simplified in context " + text(ctx) + " gives " + text(z) + " (returned " + (br ? "true" : "false") + "); "; }
-        enlarged.intersection_assign(z);
-      }
-    }
-    std::string cls = std::string(ai == bi ? "alias" : "") + (base_fail ? std::string(ai == bi ? "-" : "") + "base-level" + base_sub : "");
-    if (!base_wit.empty()) tr(" [" + base_wit + "]");
+    std::string cls = ai == bi ? "alias" : "";
+    { Vec w0; bool bad = !same_syntax_union<M>(M1, M2) && (M::included(n, M1, M2, &w0) == 0 || M::included(n, M2, M1, &w0) == 0);
+      if (A.size() > before || (ai != bi && r == 0 && nonempty_count(n, M1) > 0)) bad = true;
+      if (bad) {
+        // triage: does the base-level simplification of one disjunct in one context disjunct already lose/gain part of the meet,
+        // or return false on a non-empty meet?  (both with the plain context disjuncts and with the progressively restricted
+        // ones the powerset algorithm uses).  Run in a forked child where the base-level operator is known to abort.
+        std::string base_wit;
+        std::function<int()> tri = [&]() -> int {
+          for (int chain = 0; chain < 2; ++chain) for (size_t i = 0; i < evA.size(); ++i) {
+            D enlarged(n);
+            for (size_t j = 0; j < evB.size(); ++j) {
+              D ctx(evB[j]); if (chain) ctx.intersection_assign(enlarged);
+              D z(evA[i]); bool br = z.simplify_using_context_assign(ctx);
+              Sh sc = M::shadow(ctx, n); Un m1(1, M::meet(UA[i], sc)), m2(1, M::meet(M::shadow(z, n), sc)); Vec w;
+              bool f1 = !br && !M::empty(n, m1[0]);
+              if (f1 || M::included(n, m1, m2, &w) == 0 || M::included(n, m2, m1, &w) == 0) { base_wit = "base level: " + text(evA[i]) + " simplified in context " + text(ctx) + " gives " + text(z) + " (returned " + (br ? "true" : "false") + "); "; return f1 ? 1 : 2; }
+              enlarged.intersection_assign(z);
+            }
+          }
+          return 0; };
+        int t = risky(S.op) ? probe_value(tri) : tri();
+        const char* sub = t == 1 ? "base-level-returns-false-on-nonempty-meet" : t == 2 ? "base-level-meet-changed" : t < 0 ? "base-level-crash" : "";
+        if (*sub) cls += std::string(cls.empty() ? "" : "-") + sub;
+        if (!base_wit.empty()) tr(" [" + base_wit + "]");
+      } }
     if (check_same(key(S.op, "union_changed", cls), key(S.op, "union_changed", cls), n, M1, M2, "meet with the context before", "meet with the context after") == 0) return;
     checked(); if (A.size() > before) { violation(key(S.op, "size_increased", cls), "from " + std::to_string(before) + " to " + std::to_string(A.size()) + " disjuncts"); return; }
     checked(); if (ai != bi && r == 0 && nonempty_count(n, M1) > 0) { violation(key(S.op, "wrong_boolean", cls), "false returned although the meet with the context is not empty"); return; }
@@ -316,14 +325,15 @@
       if (how == 2) C.pool[ai]->m_swap(*C.pool[bi]); else { using std::swap; swap(*C.pool[ai], *C.pool[bi]); }
       std::swap(C.twin[ai], C.twin[bi]); S.changed.insert(ai); S.changed.insert(bi);
       if (check_same(ckey("swap_differs", S.op), ckey("swap_differs", S.op), n, U[bi], shadow(*C.pool[ai]), "other operand before", "receiver after") == 0) return;
-      check_same(ckey("swap_differs", S.op), ckey("swap_differs", S.op), n, U[ai], shadow(*C.pool[bi]), "receiver before", "other operand after"); }
+      if (check_same(ckey("swap_differs", S.op), ckey("swap_differs", S.op), n, U[ai], shadow(*C.pool[bi]), "receiver before", "other operand after") == 0) return;
+      if (!check_post(S.op, *C.pool[ai], shadow(*C.pool[ai]))) return; check_post(S.op, *C.pool[bi], shadow(*C.pool[bi])); }
     else if (how == 4) { S.op = "snapshot"; tr(pre + ".snapshot()"); hx::count("op.snapshot");
       if (C.snaps.size() >= 3) { delete C.snaps[0].p; C.snaps.erase(C.snaps.begin()); }
       Snap s; s.p = new PS(*C.pool[ai]); s.u = U[ai]; C.snaps.push_back(s); }
     else if (how == 5) { if (C.snaps.empty()) return; int k = rnd(0, (int) C.snaps.size() - 1); S.op = "assign_from_snapshot"; tr(pre + " = snapshot" + std::to_string(k)); hx::count("op.assign_from_snapshot");
       *C.pool[ai] = *C.snaps[k].p; drop_twin(C, ai); S.changed.insert(ai);
       check_same(ckey("assign_differs", S.op), ckey("assign_differs", S.op), n, C.snaps[k].u, shadow(*C.pool[ai]), "snapshot", "assigned object"); }
-    else { S.op = "copy_then_mutate_copy"; hx::count("op.copy_then_mutate_copy");
+    else { S.op = "copy_then_mutate_copy"; hx::count("op.copy_then_mutate_copy"); S.scratch = true;
       PS c(*C.pool[ai]); UOp op; if (!make_uop(op, n)) return; Un E; if (!expected_unary(op, elems(c), E)) return;
       tr(pre + ".copy" + op.text + ".omega_reduce()"); op.ps(c); c.omega_reduce(); if (coin()) c.pairwise_reduce(); }
   }
@@ -380,7 +390,7 @@
   // ---- 13. dimension-changing operators and concatenation, on a scratch copy ----
   static void step_dims(Case& C, int ai, int bi, const Un& UA, const Un& UB, const std::string& pre, Step& S) {
     const PS& A = *C.pool[ai]; const PS& B = *C.pool[bi]; int n = C.n;
-    PS T(A);
+    PS T(A); S.scratch = true;
     if (coin(30)) {
       if (UA.size() * UB.size() > 12) { hx::count("skipped.big"); return; }
       S.op = "concatenate_assign"; tr(pre + ".tmp.concatenate_assign(#" + std::to_string(bi) + ")"); note(C, S.op, A, UA, ai == bi ? "alias" : "");
@@ -467,7 +477,7 @@
       std::string opn = S.op.empty() ? "none" : S.op;
       for (int i = 0; i < NP; ++i) if (!S.changed.count(i)) {
         hx::count("bystander_checks");
-        std::string k = ckey(i == ai ? "receiver_changed_by_observer" : i == bi ? "const_argument_changed" : "bystander_changed", opn);
+        std::string k = ckey(i == ai ? (S.scratch ? "original_changed_by_mutating_copy" : "changed_by_observer") : i == bi ? "const_argument_changed" : "bystander_changed", opn);
         Un now = shadow(*C.pool[i]);
         if (check_unchanged(k, n, U[i], now, "object #" + std::to_string(i)) == 0) return;
         if (now.size() > U[i].size()) { violation(key(opn, "size_increased", "untouched-object"), "object #" + std::to_string(i) + " has more disjuncts than before"); return; }
